@@ -88,6 +88,38 @@ func (g Graph) cyclic() bool {
 	return false
 }
 
+// cycleReachable: is there a cycle among the modules reachable from main, counting only edges whose import
+// statement names an existing module (every kind but missing-module)?
+func (g Graph) cycleReachable() bool {
+	adj := map[string][]string{}
+	for _, e := range g.Edges {
+		// (a module that imports from itself is a cycle of its own kind: the unchanged analyzer answers it
+		// with "no such item in module", which is a diagnostic all the same; it is judged by the lenient rule)
+		if e.Kind != "missing-module" && e.From != e.To {
+			adj[e.From] = append(adj[e.From], e.To)
+		}
+	}
+	state := map[string]int{}
+	var visit func(n string) bool
+	visit = func(n string) bool {
+		if state[n] == 1 {
+			return true
+		}
+		if state[n] == 2 {
+			return false
+		}
+		state[n] = 1
+		for _, m := range adj[n] {
+			if visit(m) {
+				return true
+			}
+		}
+		state[n] = 2
+		return false
+	}
+	return visit("main")
+}
+
 var base = map[string]int64{"main": 100, "a": 1, "b": 2, "c": 3}
 
 func sl(v string) hs.Expr { return hs.StrLit{V: v} }
@@ -179,7 +211,7 @@ func buildModule(n string, g Graph) *hs.Module {
 	m.Fns = append(m.Fns, helper, helperN, f)
 	if n != "main" {
 		m.Fns = append(m.Fns, hs.FnDef{Name: "ev_" + n, Event: true, Params: []hs.Param{{Name: "elapsed", T: hs.TInt}}, Ret: hs.TNull,
-			Body: &hs.Block{T: hs.TNull, Stmts: []hs.Stmt{say(sl(n + " event"), id("elapsed", hs.TInt))}}})
+			Body: &hs.Block{T: hs.TNull, Stmts: []hs.Stmt{say(sl(n+" event"), id("elapsed", hs.TInt))}}})
 	}
 	// "... even when other modules define functions or globals with the same names": every module also
 	// defines PRIVATE items named like the pub items of each module it does not import from. They are
@@ -225,10 +257,13 @@ func buildProgram(g Graph) *hs.Program {
 
 type Case struct {
 	px.ProgCase
-	Graph      string
-	Faulty     bool
-	Cyclic     bool
-	Singletons int // expected singleton loads (fault-free graphs)
+	Graph  string
+	Faulty bool
+	Cyclic bool
+	// CycleReachable: a cycle of well-formed import edges can be reached from the entry module through
+	// well-formed import edges (so the analyzer meets it, whatever else is wrong elsewhere)
+	CycleReachable bool `json:",omitempty"`
+	Singletons     int  // expected singleton loads (fault-free graphs)
 }
 
 // checkGraph: diagnostics iff the graph is faulty; fault-free graphs behave like the reference.
@@ -265,6 +300,22 @@ func checkGraph(c Case) *pk.Failure {
 				kind = "cycle-accepted"
 			}
 			return pk.Failf("graph", kind, "%s: faulty graph received no error-level diagnostic\n%s%s", c.Graph, diag(), px.ProgText(c.ProgCase))
+		}
+		// "a cyclic import is reported": for a cycle of two or more modules that the analyzer meets, one of the
+		// diagnostics says so (whatever its wording); a different error alone ("no such item in module a", because
+		// a is still being analysed) does not report the cycle. The unchanged analyzer names every such cycle of
+		// the exhaustive table.
+		if c.CycleReachable {
+			named := false
+			for _, d := range errs {
+				m := strings.ToLower(d.Message)
+				if strings.Contains(m, "cycl") || strings.Contains(m, "circular") || strings.Contains(m, "recursive") || strings.Contains(m, "import loop") {
+					named = true
+				}
+			}
+			if !named {
+				return pk.Failf("graph", "cycle-not-named", "%s: cyclic graph rejected, but no diagnostic names the cycle\n%s%s", c.Graph, diag(), px.ProgText(c.ProgCase))
+			}
 		}
 		return nil
 	}
@@ -405,6 +456,60 @@ func graphs() []Graph {
 			}
 		}
 	}
+	// ... and EVERY sequence of up to four distinct import edges over main, a, b (thorough: and c), all ok-fn:
+	// the order of the import statements inside a module is part of the graph (a cycle that is closed by a
+	// module's second import is a cycle all the same)
+	nodes := []string{"main", "a", "b"}
+	if pk.Scale(0, 1) == 1 {
+		nodes = append(nodes, "c")
+	}
+	var pairs [][2]string
+	for _, f := range nodes {
+		for _, t := range nodes {
+			pairs = append(pairs, [2]string{f, t})
+		}
+	}
+	var seq func(cur [][2]string)
+	seq = func(cur [][2]string) {
+		if len(cur) > 0 {
+			// every importing module must be reachable from main, otherwise it is never analysed
+			reach := map[string]bool{"main": true}
+			for changed := true; changed; {
+				changed = false
+				for _, e := range cur {
+					if reach[e[0]] && !reach[e[1]] {
+						reach[e[1]], changed = true, true
+					}
+				}
+			}
+			ok := true
+			for _, e := range cur {
+				ok = ok && reach[e[0]]
+			}
+			if ok {
+				es := []Edge{}
+				name := "seq"
+				for _, e := range cur {
+					es = append(es, Edge{From: e[0], To: e[1], Kind: "ok-fn"})
+					name += ":" + e[0] + ">" + e[1]
+				}
+				out = append(out, Graph{Name: name, Mods: nodes[1:], Edges: es})
+			}
+		}
+		if len(cur) == 4 {
+			return
+		}
+	next:
+		for _, p := range pairs {
+			for _, e := range cur {
+				if e == p {
+					continue next
+				}
+			}
+			seq(append(append([][2]string{}, cur...), p))
+		}
+	}
+	seq(nil)
 	return out
 }
 
@@ -426,7 +531,7 @@ func TestTableGraphs(t *testing.T) {
 			defer func() { <-sem }()
 			prog := buildProgram(g)
 			gg := &gen.Generated{Prog: prog}
-			c := Case{ProgCase: px.FromGenerated(gg), Graph: g.String(), Faulty: g.faulty(), Cyclic: g.cyclic()}
+			c := Case{ProgCase: px.FromGenerated(gg), Graph: g.String(), Faulty: g.faulty(), Cyclic: g.cyclic(), CycleReachable: g.cycleReachable()}
 			pk.Eval()
 			pk.Class("shape:" + g.Name)
 			if c.Faulty {
